@@ -694,22 +694,32 @@ func (w *worker) mark(s string) {
 // longer than limit of real time, e.g. because a task blocked on a mutex,
 // which the bubble cannot see as durably blocked.
 func (w *worker) watchdog(limit time.Duration) {
+	// The budget of a run is counted in ticks of this goroutine that arrive on
+	// time: while the whole process is starved or frozen (an overloaded
+	// machine, a stopped VM) its own ticks are late too and count nothing, so
+	// only a run that hangs while the process is being scheduled trips it.
+	const tick = 500 * time.Millisecond
 	last := "start"
-	timer := time.NewTimer(limit)
+	healthy := time.Duration(0)
+	prev := time.Now()
+	ticker := time.NewTicker(tick)
 	for {
 		select {
 		case s := <-w.wdReset:
 			if s != "" {
 				last = s
 			}
-			if !timer.Stop() {
-				select {
-				case <-timer.C:
-				default:
-				}
+			healthy = 0
+			prev = time.Now()
+		case <-ticker.C:
+			now := time.Now()
+			if d := now.Sub(prev); d < 3*tick {
+				healthy += d
 			}
-			timer.Reset(limit)
-		case <-timer.C:
+			prev = now
+			if healthy < limit {
+				continue
+			}
 			buf := make([]byte, 1<<20)
 			n := runtime.Stack(buf, true)
 			fmt.Fprintf(os.Stderr, "VERIF-WATCHDOG: run %q exceeded %v\n%s\n", last, limit, buf[:n])
